@@ -386,6 +386,76 @@ func checkFilling(r *fw.R, cs [][]oracle.Pt) {
 	r.Outcome("filling:checked")
 }
 
+// ellipses drawn with n arcs from start angle a0, in either direction
+type ell struct {
+	rx, ry, rot, a0 float64
+	n               int
+	sweep           bool
+}
+
+func (e ell) data() []float64 {
+	c := oracle.Pt{X: 1, Y: 1}
+	phi := e.rot * math.Pi / 180
+	at := func(k int) oracle.Pt {
+		dir := 1.0
+		if !e.sweep {
+			dir = -1
+		}
+		th := e.a0*math.Pi/180 + dir*float64(k)*2*math.Pi/float64(e.n)
+		p := oracle.EllipseAt(c, e.rx, e.ry, phi, th)
+		// keep lattice-exact values exact (cos/sin of multiples of 90 degrees), full precision otherwise
+		snap := func(v float64) float64 {
+			if r := math.Round(v*2) / 2; math.Abs(v-r) < 1e-12 {
+				return r
+			}
+			return v
+		}
+		return oracle.Pt{X: snap(p.X), Y: snap(p.Y)}
+	}
+	fl := 0.0
+	if e.sweep {
+		fl = 2
+	}
+	p0 := at(0)
+	d := []float64{oracle.CmdMove, p0.X, p0.Y, oracle.CmdMove}
+	for k := 1; k <= e.n; k++ {
+		p := at(k)
+		if k == e.n {
+			p = p0
+		}
+		d = append(d, oracle.CmdArc, e.rx, e.ry, phi, fl, p.X, p.Y, oracle.CmdArc)
+	}
+	return append(d, oracle.CmdClose, p0.X, p0.Y, oracle.CmdClose)
+}
+
+func ellipses() []ell {
+	var out []ell
+	for _, g := range [][3]float64{{2, 2, 0}, {3, 1.5, 0}, {3, 1.5, 30}} {
+		for _, a0 := range []float64{0, 90, 180, 270, 45} {
+			for _, n := range []int{2, 4} {
+				for _, sw := range []bool{true, false} {
+					out = append(out, ell{g[0], g[1], g[2], a0, n, sw})
+				}
+			}
+		}
+	}
+	return out
+}
+
+func checkCCWCurved(r *fw.R, d []float64) {
+	pls := oracle.DenseData(d, curveN)
+	want := oracle.Area(pls) > 0
+	got := cv.Path(d).CCW()
+	if got != want {
+		r.Violate("ccw", fmt.Sprintf("CCW() = %v, signed area is %g", got, oracle.Area(pls)))
+	}
+	if want {
+		r.Outcome("ccw:ccw")
+	} else {
+		r.Outcome("ccw:cw")
+	}
+}
+
 func families(tier string) []fw.Family {
 	L3, L4 := oracle.Lattice(3), oracle.Lattice(4)
 	tri4 := oracle.ContoursModRotation(L4, 3)
@@ -432,7 +502,32 @@ func families(tier string) []fw.Family {
 			checkFilling(r, nest[i])
 		},
 		Desc: func(i int64) string { return oracle.Fmt(oracle.ClosedData(nest[i]...)) + " Filling + point queries" }}
+	ells := ellipses()
+	ellFam := fw.Family{Name: "ellipses drawn with 2 or 4 arcs, both directions, 5 start angles", N: int64(len(ells)),
+		Check: func(i int64, r *fw.R) {
+			checkShape(r, ells[i].data(), false)
+			checkCCWCurved(r, ells[i].data())
+		},
+		Desc: func(i int64) string { return oracle.Fmt(ells[i].data()) + " CCW + point queries" }}
+	curvedCCW := fw.Family{Name: "CCW of simple triangles with one curved edge", N: int64(len(tri3nd)) * 3 * 4,
+		Check: func(i int64, r *fw.R) {
+			g := oracle.Digits(i, len(tri3nd), 3, 4)
+			d := curvedData(tri3nd[g[0]], g[1], []int{0, 1, 4, 6}[g[2]])
+			// only shapes whose dense outline is simple: the curved edge must not cross the others
+			pl := oracle.DenseData(d, 64)[0]
+			if !simple(pl.P[:len(pl.P)-1]) {
+				r.Outcome("ccw:not-simple-skipped")
+				return
+			}
+			checkCCWCurved(r, d)
+		},
+		Desc: func(i int64) string {
+			g := oracle.Digits(i, len(tri3nd), 3, 4)
+			return oracle.Fmt(curvedData(tri3nd[g[0]], g[1], []int{0, 1, 4, 6}[g[2]])) + " CCW"
+		}}
 	fs := []fw.Family{
+		ellFam,
+		curvedCCW,
 		flatFam("tri(L4)/rot closed", tri4, false),
 		flatFam("quad(L3) closed", quad3, false),
 		curvedFam("tri(L3)/rot with one curved edge (quad in/out, cubic S, 4 arcs)", tri3nd),
